@@ -1,16 +1,14 @@
 #!/bin/sh
-# Builds every harness test binary once so that later checks only relink what changed.
+# Builds every harness binary once so that later checks only relink what changed.
 set -e
 cd "$(dirname "$0")/harness"
 export GOFLAGS=-mod=mod GOPROXY=off GOSUMDB=off GOTOOLCHAIN=local
 mkdir -p ../.build
-for p in props mockreg racecheck; do
-  if ls $p/*_test.go >/dev/null 2>&1; then
-    go test -c -tags verif -o ../.build/$p.test ./$p
-  fi
-done
-if ls racecheck/*_test.go >/dev/null 2>&1; then
-  go test -c -race -tags verif -o ../.build/racecheck.race.test ./racecheck
+go test -c -tags verif -o ../.build/props.test ./props
+if ls mockreg/*_test.go >/dev/null 2>&1; then
+  go test -c -tags verif -o ../.build/mockreg.test ./mockreg
 fi
+go test -c -race -tags verif -o ../.build/racecheck.race.test ./racecheck
 go build -o ../.build/zlint-cli github.com/zmap/zlint/v3/cmd/zlint
+CGO_ENABLED=0 go build -tags verif -o ../.build/oneshot ./cmd/oneshot
 echo setup ok
